@@ -55,3 +55,7 @@ fn merge_drop<'a, T: VecData<T> + 'a>(ops: &[MergeOp], left: &[T], right: &[T]) 
     result
 }
 
+#[cfg(feature = "verif")]
+pub fn verif_merge_drop_i64(ops: &[MergeOp], left: &[i64], right: &[i64]) -> Vec<i64> {
+    merge_drop(ops, left, right)
+}
